@@ -380,20 +380,33 @@ struct Hist {
         else vh::log().obs("starts");
         return true;
     }
-    // A synced index is stopped the way a clean node shutdown does it: validation queue drained, chainstate flushed (the
-    // ChainStateFlushed notification commits the index locator), queue drained again, then Interrupt/Stop. An index that is
-    // still in its initial sync is simply interrupted (its sync thread commits what it may). Killing a synced index
-    // without the flush would be a crash scenario, which is not part of this property.
-    void StopIndex(Slot& s)
+    // Stopping an index mirrors Shutdown(): validation queue drained, chainstate force-flushed (the ChainStateFlushed
+    // notification commits the locator of a synced index; an index still in its initial sync commits in its interrupt path,
+    // which needs its position to be covered by the flushed chainstate), queue drained again, then Interrupt/Stop.
+    // After invalidateblock a synced index can be *ahead* of the flushed tip; BaseIndex::Commit() is then skipped even though
+    // the chainstate was flushed. The default workload does not stop an index in that state (returns false); with
+    // --p uncommitted_stop=1 it does (and interrupts an initial sync without the preceding flush), and violations that
+    // concern such an index carry the key suffix -after-uncommitted-stop.
+    bool allow_uncommitted_stop{false};
+    // returns 0: not stopped, 1: stopped (was synced), 2: stopped during its initial sync
+    int StopIndex(Slot& s, bool final = false)
     {
-        if (!s.idx) return;
-        if (!s.idx->GetSummary().synced) {
-            s.uncommitted_stop = true;
-        } else {
+        if (!s.idx) return 0;
+        bool synced = s.idx->GetSummary().synced;
+        if (synced || !allow_uncommitted_stop) {
             node.m_node.validation_signals->SyncWithValidationInterfaceQueue();
             chainman().ActiveChainstate().ForceFlushStateToDisk(/*wipe_cache=*/false);
             node.m_node.validation_signals->SyncWithValidationInterfaceQueue();
-            if (s.idx->GetSummary().best_block_hash != Tip()) {
+            synced = s.idx->GetSummary().synced; // the initial sync may have finished meanwhile
+        }
+        if (!synced) {
+            if (allow_uncommitted_stop) s.uncommitted_stop = true;
+        } else if (s.idx->GetSummary().best_block_hash != Tip()) {
+            if (!allow_uncommitted_stop && !final) {
+                vh::log().obs("stops_skipped_index_ahead_of_tip");
+                return 0;
+            }
+            if (!final) {
                 s.uncommitted_stop = true;
                 vh::log().obs("stops_ahead_of_flushed_tip");
             }
@@ -401,10 +414,11 @@ struct Hist {
         s.idx->Interrupt();
         s.idx->Stop();
         s.idx.reset();
+        return synced ? 1 : 2;
     }
     void StopAll()
     {
-        for (auto& s : slots) StopIndex(s);
+        for (auto& s : slots) StopIndex(s, /*final=*/true);
     }
     void Flush()
     {
@@ -450,8 +464,8 @@ struct Hist {
         node.m_node.validation_signals->SyncWithValidationInterfaceQueue();
         for (auto& s : slots) {
             if (s.idx && !WaitSynced(s)) {
-                vh::log().violation("index-never-synced", "index did not catch up with the active chain", vh::J().str("index", s.name));
-                StopIndex(s);
+                vh::log().violation(s.uncommitted_stop ? "index-never-synced-after-uncommitted-stop" : "index-never-synced", "index did not catch up with the active chain", vh::J().str("index", s.name));
+                StopIndex(s, /*final=*/true);
             }
         }
         node.m_node.validation_signals->SyncWithValidationInterfaceQueue();
@@ -487,10 +501,15 @@ struct Hist {
             if (!pidx[h]) throw std::runtime_error("active block without index entry");
         }
         uint64_t bad = 0;
-        auto viol = [&](const char* key, const char* msg, vh::J d) {
+        // keys of violations that concern an index which was stopped without a locator commit earlier in this history carry a
+        // suffix (see Slot::uncommitted_stop)
+        Slot* cur{nullptr};
+        auto viol = [&](std::string key, const char* msg, vh::J d) {
+            if (cur && cur->uncommitted_stop && key.find("-after-uncommitted-stop") == std::string::npos) key += "-after-uncommitted-stop";
             if (bad++ < 6) vh::log().violation(key, msg, d.u("cp", cp - 1).str("tip", tip.GetHex()));
         };
         // --- txindex
+        cur = &slots[0];
         if (TxIndex* ti = slots[0].tx()) {
             uint64_t active = 0, stale = 0, stale_found = 0;
             for (auto& [bh, b] : model.blocks) {
@@ -517,6 +536,7 @@ struct Hist {
             rec.u("txi_active", active);
         }
         // --- spender index
+        cur = &slots[3];
         if (TxoSpenderIndex* si = slots[3].ts()) {
             const bool at_tip = si->GetSummary().best_block_hash == tip;
             uint64_t spent = 0, unspent = 0;
@@ -538,11 +558,11 @@ struct Hist {
                     ++spent;
                     if (!res->has_value()) viol("spender-missing", "spent output has no spender in the index", vh::J().str("outpoint", op.ToString()));
                     else if ((*res)->tx->GetHash() != it->second.first || (*res)->block_hash != it->second.second)
-                        viol(slots[3].uncommitted_stop ? "spender-wrong-after-uncommitted-stop" : "spender-wrong", "FindSpender returned a spender that is not the active one",
+                        viol("spender-wrong", "FindSpender returned a spender that is not the active one",
                              vh::J().str("outpoint", op.ToString()).str("want", it->second.first.GetHex()).str("got", (*res)->tx->GetHash().GetHex()).str("got_block", (*res)->block_hash.GetHex()));
                 } else if (at_tip) {
                     ++unspent;
-                    if (res->has_value()) viol(slots[3].uncommitted_stop ? "spender-of-unspent-after-uncommitted-stop" : "spender-of-unspent", "output unspent on the active chain has a spender in the index",
+                    if (res->has_value()) viol("spender-of-unspent", "output unspent on the active chain has a spender in the index",
                                                vh::J().str("outpoint", op.ToString()).str("got", (*res)->tx->GetHash().GetHex()).str("got_block", (*res)->block_hash.GetHex()));
                 }
             }
@@ -551,6 +571,7 @@ struct Hist {
             rec.u("sp_spent", spent).u("sp_unspent", unspent);
         }
         // --- block filter index
+        cur = &slots[1];
         if (BlockFilterIndex* fi = slots[1].bf()) {
             std::vector<std::string> fl;
             for (size_t h = 0; h < H; ++h) {
@@ -582,6 +603,7 @@ struct Hist {
             rec.raw("filters", vh::JArr(fl));
         }
         // --- coin stats index
+        cur = &slots[2];
         if (CoinStatsIndex* ci = slots[2].cs()) {
             std::vector<std::string> sl;
             for (size_t h = 0; h < H; ++h) {
@@ -614,13 +636,17 @@ struct Hist {
                     rec.str("scan_muhash", vh::Hex(ns->hashSerialized)).u("scan_n", ns->nTransactionOutputs).i("scan_amount", ns->total_amount.value_or(-1));
                     vh::log().obs("utxo_scans");
                 }
+                cur = nullptr; // not about an index
                 if (ns && ns->nTransactionOutputs != v.utxo.size())
                     viol("model-vs-scan", "UTXO count of the node differs from the shadow model", vh::J().u("scan", ns->nTransactionOutputs).u("model", v.utxo.size()));
             }
         }
-        std::vector<std::string> run;
-        for (auto& s : slots)
+        std::vector<std::string> run, unc;
+        for (auto& s : slots) {
             if (s.idx) run.push_back(vh::JStr(s.name));
+            if (s.uncommitted_stop) unc.push_back(vh::JStr(s.name));
+        }
+        rec.raw("uncommitted", vh::JArr(unc));
         rec.raw("running", vh::JArr(run)).u("online_violations", bad);
         vh::log().rec(rec);
         vh::log().obs("checkpoints");
@@ -645,6 +671,7 @@ VH_CMD(idx_hist)
         vh::Rng rng(args.seed, c);
         TestingSetup node{ChainType::REGTEST};
         Hist H{rng, node};
+        H.allow_uncommitted_stop = args.geti("uncommitted_stop", 0) != 0;
         // genesis
         {
             auto g = std::make_shared<CBlock>(Params().GenesisBlock());
@@ -720,9 +747,8 @@ VH_CMD(idx_hist)
                 if (rng.coin()) std::this_thread::sleep_for(std::chrono::microseconds(rng.below(4000)));
                 for (auto& s : H.slots)
                     if (rng.chance(2, 3)) {
-                        const bool synced_before = s.idx && s.idx->GetSummary().synced;
-                        H.StopIndex(s);
-                        vh::log().obs(synced_before ? "stops_after_sync" : "stops_mid_sync");
+                        const int how = H.StopIndex(s);
+                        if (how) vh::log().obs(how == 1 ? "stops_after_sync" : "stops_mid_sync");
                     }
                 if (rng.coin()) mine(rng.below(3));
                 if (rng.coin()) H.Flush();
@@ -792,9 +818,10 @@ VH_CMD(idx_hist)
                     if (rng.coin()) {
                         node.m_node.validation_signals->SyncWithValidationInterfaceQueue();
                     }
-                    H.StopIndex(s);
-                    vh::log().obs("stops");
-                    H.sig.push_back("stop:" + s.name);
+                    if (H.StopIndex(s)) {
+                        vh::log().obs("stops");
+                        H.sig.push_back("stop:" + s.name);
+                    }
                 }
                 break;
             }
@@ -804,9 +831,8 @@ VH_CMD(idx_hist)
                     H.StartIndex(s);
                     if (rng.chance(1, 3)) {
                         std::this_thread::sleep_for(std::chrono::microseconds(rng.below(5000)));
-                        const bool synced_before = s.idx && s.idx->GetSummary().synced;
-                        H.StopIndex(s);
-                        vh::log().obs(synced_before ? "stops_after_sync" : "stops_mid_sync");
+                        const int how = H.StopIndex(s);
+                        if (how) vh::log().obs(how == 1 ? "stops_after_sync" : "stops_mid_sync");
                         H.StartIndex(s);
                     }
                     H.sig.push_back("start:" + s.name);
